@@ -21,6 +21,7 @@ def scenarios(quick):
         ([rl("r", 4, wait=9), retry(1, dly=1)], []),            # the limiter's wait is outside the retry policy
         ([retry(2, dly=1), rl("r", 3, wait=9)], []),
         ([cb("c"), rl("r", 4, wait=9), retry(1, dly=1)], []),
+        ([bh("b", 1, wait=4), retry(1, dly=1)], [env("BhTake", 0, id="b"), env("BhRelease", 5, id="b")]),     # waiting for a permit as the outermost policy
     ]
     T = 8 if quick else 12
     for st, extra in stacks:
@@ -34,6 +35,9 @@ def scenarios(quick):
                     out.append(scenario(st, fns, extra + [start(1, 0, asyn), env("CtxCancel", t, 1)]))
                 for gap in (0, 1, 2):
                     out.append(scenario(st, fns, extra + [start(1, 0, True), env("AsyncCancel", t, 1, gap=gap)]))
+                # the caller's context reaches its deadline (a timer of the runtime; reported as context.DeadlineExceeded)
+                if t >= 1 and (t % 2 == 1 or not quick):
+                    out.append(scenario(st, fns, extra + [start(1, 0, t % 4 == 3), env("CtxDeadline", t, 1)]))
     return out
 
 
